@@ -141,6 +141,51 @@ func c15(c *Ctx) {
 	c.Before("apply/checksum-before-pos", ap, setPos, p.PlainCalls("litefs.(*DB).checksum"), 1, "the position is set only after the checksum comparison", "")
 	c.After("apply/marks-dirty", ap, setPos, p.PlainCalls("litefs.(*Store).MarkDirty"), p.SuccessReturn, 1, "a successful apply marks the database dirty (the tombstone travels on to this node's own replicas)", "")
 
+	// ---- a dropped database can still be snapshotted (joining or diverged replicas learn the drop through a snapshot) ----
+	ws := "litefs.(*DB).WriteSnapshotTo"
+	openDB := p.CallWhere("litefs.OS.Open", `"WRITESNAPSHOT:DB"`)
+	{
+		fn := c.F(ws)
+		key, rule := "snapshot/dropped-db-tolerated", "K7 ErrHandled (tolerating IsNotExist)"
+		desc := "WriteSnapshotTo tolerates a missing database file (a dropped database has none): only other open errors end the snapshot"
+		if c.need(key, rule, desc, fn, ws) {
+			ins := Instrs(fn, openDB)
+			bad := ""
+			for _, in := range ins {
+				call := in.(*ssa.Call)
+				r := regexpQuote(p.Render(call))
+				notExist := G(`os\.IsNotExist\(`+r+`#1\)`, true)
+				if p.CountGuardEdges(fn, notExist) == 0 {
+					bad = "the open error at " + c.where(in) + " is never tested with os.IsNotExist"
+					continue
+				}
+				// on the not-exist edge the function goes on to write the (empty) snapshot
+				okPath := false
+				for _, b := range fn.Blocks {
+					for i, sb := range b.Succs {
+						if p.EdgeAsserts(Edge{b, i}, notExist) {
+							if (&Search{P: p, Fn: fn, Tgt: p.PlainCalls("ltx.(*Encoder).EncodeHeader")}).runFromBlock(sb) != nil {
+								okPath = true
+							}
+						}
+					}
+				}
+				if !okPath {
+					bad = "a missing database file does not lead to an encoded snapshot"
+				}
+			}
+			if bad != "" || len(ins) == 0 {
+				c.fail(key, rule, desc, "replicas that restart or join after the drop (or diverged) need a snapshot of the dropped database: a snapshot that fails aborts the whole stream and the replica retries for ever", bad, len(ins))
+			} else {
+				c.ok(key, rule, desc, len(ins))
+			}
+		}
+	}
+	c.NilGuardedUses("snapshot/dropped-db-file-nil", ws, func(in ssa.Instruction) bool {
+		ex, ok := in.(*ssa.Extract)
+		return ok && ex.Index == 0 && openDB(ex.Tuple.(ssa.Instruction))
+	}, 0, "the database file handle is used only when it was opened", "")
+
 	// ---- recreate ----
 	cr := "litefs.(*Store).CreateDB"
 	existing := "p0.dbs[p1]"
